@@ -275,6 +275,11 @@ impl Ctx {
         self.state_hashes.insert(s.finish());
     }
 
+    /// insert an already subject-mixed hash (merging a child's report)
+    pub fn add_case_hash_raw(&mut self, h: u64) {
+        self.case_hashes.insert(h);
+    }
+
     pub fn add_case_hash(&mut self, subject: &str, h: u64) {
         let mut s = std::collections::hash_map::DefaultHasher::new();
         subject.hash(&mut s);
@@ -317,6 +322,12 @@ impl Ctx {
 
     /// Report a violation found by an engine.  Known findings are matched here.
     pub fn violation(&mut self, subject: &str, fail: &Fail, witness: Value) {
+        self.violation_n(subject, fail, witness, 1)
+    }
+
+    /// Same, for `n` violations of one (clause, class) represented by one witness (used when a child process
+    /// already grouped them).
+    pub fn violation_n(&mut self, subject: &str, fail: &Fail, witness: Value, n: u64) {
         let v = Violation {
             subject: subject.to_string(),
             clause: fail.clause.clone(),
@@ -325,15 +336,16 @@ impl Ctx {
             detail: truncate(&fail.detail, 600),
         };
         if let Some(i) = self.covered_by(&v) {
-            self.known[i].hits += 1;
-            self.stats(subject).violations_known += 1;
+            self.known[i].hits += n;
+            self.stats(subject).violations_known += n;
             return;
         }
-        self.stats(subject).violations += 1;
+        self.stats(subject).violations += n;
         let key = (v.subject.clone(), v.clause.clone(), v.class.clone());
         let c = self.viol_counts.entry(key).or_insert(0);
-        *c += 1;
-        if *c <= MAX_RECORDED_PER_CLASS {
+        let before = *c;
+        *c += n;
+        if before < MAX_RECORDED_PER_CLASS {
             self.violations.push(v);
         }
     }
